@@ -251,8 +251,16 @@ func main() {
 		var probe struct {
 			Model    bool `json:"model_tier"`
 			Declared bool `json:"declared_tier"`
+			Reported bool `json:"reported_tier"`
 		}
 		lib.LoadReplay(r.Replay, &probe)
+		if probe.Reported {
+			var c repCase
+			lib.LoadReplay(r.Replay, &c)
+			reportedTier(r, &c)
+			r.Finish(lib.Coverage{Evaluations: 1, DistinctNontrivial: 1, States: 1, Transitions: 1, Exhaustive: true})
+			return
+		}
 		if probe.Declared {
 			var c declCase
 			lib.LoadReplay(r.Replay, &c)
@@ -297,9 +305,10 @@ func main() {
 	}
 
 	// ---- declared-deadline tier: the deadline a command gets is the one its BUILD file declares
-	declared := 0
+	declared, reported := 0, 0
 	if r.Replay == "" {
 		declared = declaredTier(r, nil)
+		reported = reportedTier(r, nil)
 	}
 
 	// ---- real tier: the same behaviours, one real execution each
@@ -387,6 +396,7 @@ func main() {
 		"real tier: kernel scheduling, signal delivery and timer firing are not under the explorer's control: one real execution per behaviour (failures are re-run once and only reported if they reproduce); it doubles as the conformance check of the kernel model: every real outcome must be among the model's outcomes for that behaviour",
 		"real-tier bounds are generous and documented: return within deadline + 1.03s (the code's own TERM/KILL waits) + 5s slack (not judged if the machine needs more than 1s for `true`); the expected verdict follows from the instant at which the shell really ended, with half the timeout as a margin in which both verdicts are accepted; survivors are checked 1.5s after return",
 		"declared-deadline tier: the deadline of a command is target.BuildTimeout / target.Test.Timeout as the real parser sets them; declared means: an integer > 0 is the number of seconds (rules/misc_rules.build_defs: 'Maximum time in seconds this rule can run for before being killed'), a string names a size, otherwise the size's timeout, otherwise the configured default; 0 and negative integers are not generated",
+		"reported tier: one real `plz build` / `plz test` per behaviour {build, test} x {no results file, a complete all-passing results file written before the overrun} x {leader sleeps, leader exits while a child holds the output} x {ignores SIGTERM}; timeout 2 s; judged: plz exits non-zero, no process of the command is left 1.5 s later (failures re-run once); a 120 s horizon gives no verdict",
 		"children are background jobs of the action's shell, i.e. in the action's process group (the statement's scope)",
 	}
 	cov := lib.Coverage{
@@ -397,14 +407,14 @@ func main() {
 		Exhaustive:         true,
 		TracesValidated:    conform,
 	}
-	cov.Evaluations += declared
-	cov.DistinctNontrivial += declared
+	cov.Evaluations += declared + reported
+	cov.DistinctNontrivial += declared + reported
 	if m != nil {
 		cov.Evaluations += m.Executions
 		cov.DistinctNontrivial += m.Executions - m.Pruned
 		cov.States, cov.Transitions = m.States, m.Transitions
 		cov.Exhaustive = m.Incomplete == 0
-		cov.Extra = map[string]any{"model_cases_and_pairs": m.Cases, "model_executions": m.Executions, "model_pruned": m.Pruned, "model_deviation_bound_single": m.Bound, "model_deviation_bound_pairs": m.PairBound, "model_incomplete_explorations": m.Incomplete, "model_execution_statuses": m.Statuses, "model_max_choice_points": m.MaxPoints, "declared_deadline_cases": declared, "real_cases": len(cases), "real_outcomes_found_in_model": conform}
+		cov.Extra = map[string]any{"model_cases_and_pairs": m.Cases, "model_executions": m.Executions, "model_pruned": m.Pruned, "model_deviation_bound_single": m.Bound, "model_deviation_bound_pairs": m.PairBound, "model_incomplete_explorations": m.Incomplete, "model_execution_statuses": m.Statuses, "model_max_choice_points": m.MaxPoints, "declared_deadline_cases": declared, "reported_tier_plz_invocations": reported, "real_cases": len(cases), "real_outcomes_found_in_model": conform}
 	}
 	r.Finish(cov)
 }
